@@ -15,7 +15,9 @@ RULE = ('Hypothesis draws a client kind, a transport list, a connection URL (sch
         'JSON, binary) interleaved with server sends, and a script applied at the client I/O '
         'boundary in front of the real server: PING frames / packets with arbitrary data, NOOPs '
         'and unknown packet types injected, the probe answered wrongly or not at all, silence from '
-        'a drawn point on (WebSocket: nothing more received; polling: requests hang). Oracle: one '
+        'a drawn point on (WebSocket: nothing more received; polling: requests hang); the judged '
+        'connection may be the second or third of the same client object (earlier ones ended by '
+        'client disconnect, server disconnect or a dropped socket plus a send). Oracle: one '
         'PONG with equal data per PING, in order; every server MESSAGE reaches the handler once, in '
         'arrival order; the server receives exactly the application sends, in order, binary as '
         'binary frames on WebSocket and b+base64 in polling bodies; request URLs = /<path>/ + '
@@ -79,6 +81,10 @@ def case_st(draw):
         'I': draw(st.sampled_from([2.5, 5, 25])), 'T': draw(st.sampled_from([2.5, 5, 20])),
         'faults': draw(st.lists(inject_st, max_size=2)),
         'steps': steps,
+        # earlier connections of the same client object (what a reconnecting application does),
+        # each ended in the drawn way before the judged connection is made
+        'prelude': draw(st.sampled_from([[], [], [], ['cdisc'], ['sdisc'], ['drop'],
+                                         ['drop', 'cdisc'], ['sdisc', 'drop']])),
     }
 
 
@@ -99,6 +105,7 @@ def check_case(case, ctx=None):
     cl = h.client
     ftrig = '+'.join(sorted('%s:%s' % (f['on'], f['kind']) for f in case['faults'])) or 'no-fault'
     try:
+        pre = run_prelude(h, case)
         c = h.client_call('connect', case['url'], transports=case['transports'],
                           engineio_path=case['path'])
         h.run_until(lambda: c.done, 40)
@@ -247,9 +254,50 @@ def check_case(case, ctx=None):
                 cls.append('url-with-query')
             if pings:
                 cls.append('pings-seen')
+            for k in pre:
+                cls.append('earlier-connection-ended-by-' + k)
             ctx.case(rep, nt, cls)
     finally:
         h.teardown()
+
+
+def run_prelude(h, case):
+    """Earlier connections of the same client object, without script faults; every log is
+    emptied afterwards so that the judged connection is looked at alone.  -> kinds that ran"""
+    ran = []
+    cl = h.client
+    I, T = case['I'], case['T']
+    for kind in case.get('prelude') or []:
+        h.faults.disabled = True
+        c = h.client_call('connect', case['url'], transports=case['transports'],
+                          engineio_path=case['path'])
+        h.run_until(lambda: c.done, 40)
+        if not c.done or c.exc is not None:
+            break
+        sids = [e[2] for e in h.world.app_log.events if e[1] == 'connect']
+        if kind == 'drop' and cl.transport() == 'websocket' and getattr(cl, 'ws', None) is not None \
+                and hasattr(cl.ws, 'conn'):
+            # the network path dies; the application then tries to send
+            cl.ws.dropped = True
+            h.world.ws_fail(cl.ws.conn)
+            h.client_call('send', 'into the void')
+        elif kind == 'cdisc':
+            h.client_call('disconnect')
+        else:
+            kind = 'sdisc'
+            h.world.call('disconnect', sids[-1])
+        h.run_until(lambda: cl.state == 'disconnected', 2 * (I + T) + 40)
+        h.run_until(lambda: False, 1.0)
+        if cl.state != 'disconnected':
+            break
+        ran.append(kind)
+    h.run_until(lambda: False, 0.5)
+    del h.log.http[:], h.log.ws[:], h.log.events[:]
+    del h.world.app_log.events[:], h.world.app_log.steps[:]
+    h.faults.count = {}
+    h.faults.fired = []
+    h.faults.disabled = False
+    return ran
 
 
 def silence_start(h, case):
